@@ -7,7 +7,8 @@ from __future__ import annotations
 
 from hypothesis import strategies as st
 
-from rdflib import BNode, Graph, Literal, URIRef, Variable
+from rdflib import BNode, Dataset, Graph, Literal, URIRef, Variable
+from rdflib.graph import ReadOnlyGraphAggregate
 from rdflib.paths import AlternativePath, InvPath, MulPath, NegatedPath, SequencePath
 
 from pbt.codec import T, key, tkey
@@ -17,7 +18,9 @@ from pbt.oracle import pathref
 
 RULE = ("path ASTs of depth <=3 (quick) / <=5 (thorough) over 3 predicates with ^ / | * + ? and negated sets (forward, inverse, mixed); graphs of "
         "0-8 triples over 4 nodes + falsy literals with cycles and self-loops; each end drawn from {unbound, node, absent IRI, falsy literal}; "
-        "both routes (Python API, SPARQL text). Non-trivial = path has a closure or negated set AND (graph has a cycle or an end is a falsy or "
+        "both routes (Python API, SPARQL text); the triples as one graph, as a Dataset with default_union over three graphs or as a "
+        "ReadOnlyGraphAggregate over two; in a third of the cases the same path object and prepared query again after a triple was removed "
+        "/ added. Non-trivial = path has a closure or negated set AND (graph has a cycle or an end is a falsy or "
         "absent term); distinct by SHA-1 of the case JSON.")
 ASSUMPTIONS = ["results compared as sets; duplicate-freedom asserted only where the outermost operator is * + or ?",
                "nested zero-length steps at a bound term that does not occur in the graph: both readings accepted (lower/upper reference)",
@@ -28,6 +31,8 @@ NODES = [["u", "urn:a"], ["u", "urn:b"], ["b", "c"], ["u", "urn:d"], ["l", "0", 
          ["l", "false", None, gt.XSD + "boolean"]]
 ABSENT = ["u", "urn:absent"]
 CG = counting_graph_class(Graph)
+CDS = counting_graph_class(Dataset)
+CAGG = counting_graph_class(ReadOnlyGraphAggregate)
 VS, VO = Variable("s"), Variable("o")
 LIMIT = 40000
 
@@ -111,11 +116,22 @@ def neg_inverse(path):
 def run(case):
     out = Out()
     path = case["path"]
-    g = CG()
+    # the triples as one graph, or seen through a view that is the union of several graphs: a Dataset whose default graph is the
+    # union of its graphs (triples spread over the default graph and two named ones), a ReadOnlyGraphAggregate over two graphs
+    view = case.get("view", 0)
+    if view == 1:
+        g = CDS(default_union=True)
+        parts = [g.default_context, g.graph(URIRef("urn:g1")), g.graph(URIRef("urn:g2"))]
+    elif view == 2:
+        parts = [Graph(), Graph()]
+        g = CAGG(parts)
+    else:
+        g = CG()
+        parts = [g]
     tset = set()
-    for s, p, o in case["triples"]:
+    for n, (s, p, o) in enumerate(case["triples"]):
         t = (T(NODES[s % len(NODES)]), P[p % len(P)], T(NODES[o % len(NODES)]))
-        g.add(t)
+        parts[n % len(parts)].add(t)
         tset.add(tkey(t))
     s, o = end_term(case["s"]), end_term(case["o"])
     sk, ok = (None if s is None else key(s)), (None if o is None else key(o))
@@ -200,6 +216,37 @@ def run(case):
             r = sut(ask)
             if not judge("sparql", r, dup):
                 return out
+        mut = case.get("mutate")
+        if mut is not None:
+            # the SAME path object and the SAME prepared query once more after the graph has changed: what they answered before
+            # must not stick to them (both ends unbound, where a closure is enumerated from every node)
+            from rdflib.plugins.sparql import prepareQuery
+            pq = sut(prepareQuery, f"SELECT ?s ?o WHERE {{ ?s {sparql_path(path)} ?o }}")
+            r0 = sut(lambda: list(g.triples((None, rp, None))))
+            q0 = sut(lambda: list(g.query(pq))) if not is_err(pq) else None
+            if case["triples"] and mut[0]:
+                s0, p0, o0 = case["triples"][0]
+                t0 = (T(NODES[s0 % len(NODES)]), P[p0 % len(P)], T(NODES[o0 % len(NODES)]))
+                for part in parts:
+                    part.remove(t0)  # (wherever the generated list put copies of it)
+                tset.discard(tkey(t0))
+            t1 = (T(NODES[mut[1] % len(NODES)]), P[mut[2] % len(P)], T(NODES[mut[3] % len(NODES)]))
+            parts[-1].add(t1)
+            tset.add(tkey(t1))
+            nodes = {t[0] for t in tset} | {t[2] for t in tset}
+            s = o = sk = ok = None
+            shape = "uu"
+            falsy_end = absent_end = False
+            lo = pathref.evaluate(path, tset, pk, nodes)
+            hi = lo
+            r = sut(lambda: [(key(a), key(b)) for a, _, b in g.triples((None, rp, None))])
+            if not judge("api-triples-after-change", r, dup):
+                return out
+            if not is_err(pq):
+                r = sut(lambda: [(key(b[VS]), key(b[VO])) for b in g.query(pq).bindings])
+                if not judge("sparql-prepared-after-change", r, dup):
+                    return out
+            out.cls("re-evaluated-after-change")
     finally:
         g.disarm()
     out.cls("shape:" + shape, "feat:" + feats, "top:" + path[0], "falsy-end" if falsy_end else "no-falsy-end")
@@ -237,6 +284,8 @@ def strategy(tier):
         "path": path_strategy(5 if big else 3).filter(lambda p: pathref.depth(p) <= (5 if big else 3)),
         "triples": st.lists(tri, max_size=8),
         "s": end, "o": end,
+        "view": st.sampled_from([0, 0, 0, 1, 2]),
+        "mutate": st.one_of(st.none(), st.none(), st.tuples(st.booleans(), st.integers(0, 6), st.integers(0, 2), st.integers(0, 6)).map(list)),
     })
 
 
